@@ -1,1 +1,2 @@
+import EdzedProps.C01
 import EdzedProps.C20
